@@ -116,7 +116,13 @@ class World1:
         return self.store.snapshot()
 
 
+class World1FlaskPrefix:
+    """marker: the Flask world with a non-default key_prefix for the cache hooks"""
+
+
 class World1Flask(World1):
+    KEY_PREFIX = "temporary_credential:"
+
     """the same histories against the Flask integration: flask_oauth1.AuthorizationServer + ResourceProtector with the cache hooks it ships
     (register_nonce_hooks, register_temporary_credential_hooks, create_exists_nonce_func) over a dict cache; credentials are numbered as in mem1"""
     def __init__(self, methods):
@@ -140,8 +146,12 @@ class World1Flask(World1):
             return {"oauth_token": st.nxt(a), "oauth_token_secret": st.nxt(b)}
         server = AuthorizationServer(app, query_client=lambda cid: st.clients.get(cid), token_generator=gen)
         fas.generate_token = lambda n=36: st.nxt("ver")
-        register_nonce_hooks(server, cache)
-        register_temporary_credential_hooks(server, cache)
+        if self.KEY_PREFIX == "temporary_credential:":
+            register_nonce_hooks(server, cache)
+            register_temporary_credential_hooks(server, cache)
+        else:
+            register_nonce_hooks(server, cache, key_prefix="n:")
+            register_temporary_credential_hooks(server, cache, key_prefix=self.KEY_PREFIX)
         server.register_hook("create_token_credential", lambda token, temp: st.creds.setdefault(
             token["oauth_token"], mem1.TokenCred(token["oauth_token"], token["oauth_token_secret"], temp.get_client_id(), temp.get_user_id())))
         rp = ResourceProtector(app, query_client=lambda cid: st.clients.get(cid), query_token=lambda cid, t: (st.creds.get(t) if st.creds.get(t) is not None and st.creds[t].client_id == cid else None),
@@ -206,9 +216,14 @@ class World1Flask(World1):
     def snapshot(self):
         temps = []
         for k, (v, _) in self.cache.d.items():
-            if k.startswith("temporary_credential:"):
-                temps.append([k.split(":", 1)[1], v.get("client_id"), v.get("oauth_verifier"), v.get("user_id")])
+            if k.startswith(self.KEY_PREFIX):
+                temps.append([k[len(self.KEY_PREFIX):], v.get("client_id"), v.get("oauth_verifier"), v.get("user_id")])
         return {"temps": sorted(temps), "creds": sorted([k, c.client_id, c.user_id] for k, c in self.store.creds.items())}
+
+
+class World1FlaskCustom(World1Flask):
+    """the cache hooks registered with key prefixes of the integrator's choosing"""
+    KEY_PREFIX = "tc/"
 
 
 class World1Django(World1Flask):
@@ -441,6 +456,20 @@ def cases(rng, tier):
         acc = dict({"op": "access", "client": "ca", "token": "tok4"}, **S("ca", "sec5", "a1"))
         ops += [acc, dict(acc), dict(acc, nonce="a2", signed_with=[SECRETS["ca"], "wrong"]), dict(acc, nonce="a3", client="cb", signed_with=[SECRETS["cb"], "sec5"])]
         out.append({"cfg": World1(["HMAC-SHA1"]).cfg, "ops": ops})
+    # PLAINTEXT requests that do carry a timestamp and a nonce (the library's client always sends them): replay and window apply to them too
+    for ep in ("access", "exchange", "initiate"):
+        for variant in ("replay", "stale", "fresh"):
+            ops = [dict(base[0], method="PLAINTEXT"), base[1]]
+            ex = dict(dict({"op": "exchange", "client": "ca", "token": "tmp1", "verifier": "ver3"}, **S("ca", "tsec2", "e1")), method="PLAINTEXT")
+            acc = dict(dict({"op": "access", "client": "ca", "token": "tok4"}, **S("ca", "sec5", "a1")), method="PLAINTEXT")
+            tgt = {"access": acc, "exchange": ex, "initiate": dict(base[0], method="PLAINTEXT", nonce="i9")}[ep]
+            if variant == "stale":
+                tgt = dict(tgt, timestamp=str(NOW0 - 301))
+            if ep == "access":
+                ops += [ex, tgt] + ([dict(tgt)] if variant == "replay" else [])
+            else:
+                ops += [tgt] + ([dict(tgt)] if variant == "replay" else [])
+            out.append({"cfg": World1(["HMAC-SHA1", "PLAINTEXT"]).cfg, "ops": ops})
     return out + fw_cases()
 
 
@@ -615,7 +644,7 @@ def impl(c):
         return {"outs": outs, "store": w.snapshot()}
     out = run(World1(c["cfg"]["methods"]))
     if not any(op.get("fault") is not None for op in c["ops"]):
-        for name, W in (("flask", World1Flask), ("django", World1Django)):      # the integrations with their own cache hooks must answer the same
+        for name, W in (("flask", World1Flask), ("flask-prefix", World1FlaskCustom), ("django", World1Django)):      # the integrations with their own cache hooks must answer the same
             o2 = run(W(c["cfg"]["methods"]))
             if o2 != {k: x for k, x in out.items() if not k.startswith("differs:")}:
                 out["differs:" + name] = o2
@@ -642,7 +671,7 @@ def project(c, out):
 
 def oracle(c, out):
     v = oracle_one(c, {k: x for k, x in out.items() if not k.startswith("differs:")})
-    for name in ("flask", "django"):
+    for name in ("flask", "flask-prefix", "django"):
         if "differs:" + name in out:
             v += [(f"[{name} integration with its cache hooks] " + what, dict(sig, fw=name)) for what, sig in oracle_one(c, out["differs:" + name])]
     return v
